@@ -109,7 +109,7 @@ theorem sorted_step {s : State} (hs : PoolSorted s.pool) (op : Op) : PoolSorted 
     simp only [step]; unfold doCancel
     repeat' split
     all_goals first | exact hs | exact Pairwise.sublist (erase_sublist) hs
-  | incFee id who t add =>
+  | incFee id who t add evm =>
     simp only [step]; unfold doIncFee
     repeat' split
     all_goals first | exact hs | exact insertDesc_sorted _ (Pairwise.sublist (erase_sublist) hs)
